@@ -915,9 +915,24 @@ fn random_run_m(rng: &mut Rng, prof: &Profile, sink: &mut Sink<RibbonEngine>, ma
             let n = 65_536 - l as u64 + rng.below(2 * l as u64 + 8);
             let x = in_range(rng, b);
             { let (b__, n__) = (x.to_bits(), n as u32); samples(rng, &mut t, b__, n__); }
-            { let (b__, n__) = (in_range(rng, b).to_bits(), 2 * l as u32 + 70_000); samples(rng, &mut t, b__, n__); }
-            twins_cheap(rng, &mut t);
-            { let (b__, n__) = (out_of_range(rng, b).to_bits(), 2); samples(rng, &mut t, b__, n__); }
+            if rng.chance(0.5) {
+                { let (b__, n__) = (in_range(rng, b).to_bits(), 2 * l as u32 + 70_000); samples(rng, &mut t, b__, n__); }
+                twins_cheap(rng, &mut t);
+                { let (b__, n__) = (out_of_range(rng, b).to_bits(), 2); samples(rng, &mut t, b__, n__); }
+            } else {
+                // the finger is lifted exactly when a 16-bit count of the press's samples is back at zero (or one off):
+                // the lift must be seen all the same
+                let mut total = 65_536u64 * (1 + rng.below(2));
+                if rng.chance(0.2) {
+                    total = if rng.chance(0.5) { total - 1 } else { total + 1 };
+                }
+                if total > n {
+                    { let (b__, n__) = (in_range(rng, b).to_bits(), (total - n) as u32); samples(rng, &mut t, b__, n__); }
+                }
+                { let (b__, n__) = (out_of_range(rng, b).to_bits(), 1 + rng.below(2) as u32); samples(rng, &mut t, b__, n__); }
+                t.push(Ev::Look);
+                t.push(Ev::PollReleased);
+            }
         }
     }
     let budget = budget + t.ctx.steps;
